@@ -27,6 +27,18 @@ Theorem C04_add_stores : forall a b c now a', a_inv a -> a_step a (OAdd b c now)
 Proof. exact stored_add. Qed.
 Print Assumptions C04_add_stores.
 
+(* ... whichever way the block came by its dates: handed to the constructor (the clock is then irrelevant), or
+   never given (then it is the time of its construction, not the time of the call, that is stored) *)
+Corollary C04_add_stores_dates : forall a b cd md clock c now a', a_inv a ->
+  a_step a (OAdd (dated b cd md clock) c now) = Some a' ->
+  exists nb, a_find a' (b_type b) = Some nb /\
+    l_cdate nb = init_date cd clock /\ l_mdate nb = init_date md clock /\ l_adate nb = now.
+Proof.
+  intros a b cd md clock c now a' Hi H. destruct (stored_add a _ c now a' Hi H) as [p [_ Hf]].
+  eexists. split; [exact Hf|]. cbn. repeat split; reflexivity.
+Qed.
+Print Assumptions C04_add_stores_dates.
+
 (* a successful replace stores the new block; without a comment it keeps the previous comment *)
 Theorem C04_replace_stores : forall a b c n1 n2 a', a_inv a -> a_step a (OReplace b c n1 n2) = Some a' ->
   exists p old, b_payload b = Some p /\ a_find a (b_type b) = Some old /\
